@@ -59,11 +59,14 @@ def gen_configs(rng, tier, rt):
         maxdist = rng.choice([0, 0, 2.0])
         inner = rng.choice([0, 0, 1])
         pruning = 1 if (rng.random() < 0.15 and not penalty) else 0
+        maxstep = rng.choice([0, 0, 0, 1.5, 3.0])
+        mld = rng.choice([0, 0, 1, 2, 4])          # a per-pair filter: rows of different lengths run concurrently
         reps = 1 if tier == "quick" else rng.choice([1, 1, 3])
         for rep in range(reps):
             cid += 1
             cfgs.append((cid, routine, n, ndim, int(equal), L, rb, re, cb, ce, triu, threads, sched, chunk, delay,
-                         rng.randrange(1 << 30), window, psi, penalty, maxdist, inner, pruning, rng.randrange(1 << 30)))
+                         rng.randrange(1 << 30), window, psi, penalty, maxdist, inner, pruning, rng.randrange(1 << 30),
+                         maxstep, mld))
     return cfgs
 
 
